@@ -1,3 +1,8 @@
+/// the koto tree the harness is linked against (`KOTO_REPO` is set by tools/mutcheck.sh)
+fn repo_root() -> String {
+    std::env::var("KOTO_REPO").unwrap_or_else(|_| "/repo".to_string())
+}
+
 // ---- cut-off programs ------------------------------------------------------------------------------
 
 #[derive(Debug, Clone, PartialEq)]
@@ -253,7 +258,8 @@ impl Ctx {
 
     fn repo_sources(&mut self, rng: &mut Rng, thorough: bool) {
         let mut files: Vec<std::path::PathBuf> = vec![];
-        for dir in ["/repo/koto/tests", "/repo/koto/benches", "/repo/crates/cli/docs"] {
+        let repo = repo_root();
+        for dir in [format!("{}/koto/tests", repo), format!("{}/koto/benches", repo), format!("{}/crates/cli/docs", repo)] {
             if let Ok(rd) = std::fs::read_dir(dir) {
                 let mut es: Vec<_> = rd.filter_map(|e| e.ok()).map(|e| e.path()).filter(|p| p.extension().is_some_and(|e| e == "koto")).collect();
                 es.sort();
@@ -262,7 +268,7 @@ impl Ctx {
         }
         for f in files {
             let Ok(src) = std::fs::read_to_string(&f) else { continue };
-            let is_test = f.starts_with("/repo/koto/tests");
+            let is_test = f.starts_with(format!("{}/koto/tests", repo));
             self.rep.bump("repo_files");
             let Ok(Ok(base)) = parse_real(&src) else {
                 self.rep.bump("repo_files_not_parsing");
@@ -403,7 +409,8 @@ impl Ctx {
     /// parser.rs sits inside a modelled primitive, and `current_token` is only read for its text,
     /// byte range, span, indent and kind.
     fn interface_check(&mut self) {
-        let path = "/repo/crates/parser/src/parser.rs";
+        let path_s = format!("{}/crates/parser/src/parser.rs", repo_root());
+        let path = path_s.as_str();
         let Ok(src) = std::fs::read_to_string(path) else {
             self.fail("K", "K:C10:cursor-interface", json!({"note": "cannot read parser.rs", "input": path}));
             return;
